@@ -113,3 +113,13 @@ V_DEF = "forall(p, 0, P, forall(k, 0, var_bounds[p, RG_END] - var_bounds[p, RG_S
 SOL_DEF = "sol() == forall(p, 0, P, rel_holds(p))"
 PROP_IFACE_SOL = ("P2.sol", "implies(ufun_bool('Rel', pidx, tvec) and inbox(tvec, old(domains), n), result != PROP_INCONSISTENCY and inbox(tvec, domains, n))")
 CA_PRESERVE = ("C02.preserve", f"implies(sol() and in_box({SS0}, {TOP}), result != PROBLEM_INCONSISTENT and in_box({SS}, {TOP}))")
+
+PROP_IFACE_ACC = [
+    ("P3.acc", "implies(result == PROP_CONSISTENCY and forall(k, 0, n, domains[k, MIN] == tvec[k] and domains[k, MAX] == tvec[k]), ufun_bool('Rel', pidx, tvec))"),
+    ("P4.ent", "implies(result == PROP_ENTAILMENT and inbox(tvec, domains, n), ufun_bool('Rel', pidx, tvec))"),
+]
+ALLFULL = ("C01.fullmask", "forall(p, 0, P, fullmask(p))")
+# K: an enabled constraint whose variables are all instantiated to sigma holds on sigma, unless it is queued (and is not the one that just ran)
+ACC_K = lambda S, T, last: f"forall(p, 0, P, implies({NEs}[{TOP}, p] and onpoint({S}, {TOP}, p) and (not {T}[p] or p == {last}), rel_holds(p)))"
+# J: a disabled constraint holds on every point of the current box (specialised to sigma)
+ACC_J = lambda S: f"forall(p, 0, P, implies(not {NEs}[{TOP}, p] and in_box({S}, {TOP}), rel_holds(p)))"
